@@ -112,4 +112,42 @@ theorem contents_independent_of_write_mode (cfg cfg' : Cfg) (h : cfg'.rot = cfg.
     (refines_all cfg ha hn ops hp)
     (refines_all cfg' ha' (by intro r hr; rw [h] at hr; exact hn r hr) ops hp)
 
+
+/-! ### The in-band control messages of the asynchronous channel -/
+
+/-- `start_async_fs_writer`: the writer thread dispatches on the CONTENT of a message:
+    `b"F"` = flush, `b"S"` = shutdown, anything else = data -/
+inductive Dispatch where
+  | flush | shutdown | data
+deriving DecidableEq, Repr
+
+def asyncDispatch (msg : List Nat) : Dispatch :=
+  if msg = [70] then .flush else if msg = [83] then .shutdown else .data
+
+/-- a RECORD message always ends with the line ending (LF or CRLF), so it can never be taken
+    for a control message — whatever the format output is (also the empty one) -/
+theorem record_never_control (out le : List Nat) (hle : le = [10] ∨ le = [13, 10]) :
+    asyncDispatch (out ++ le) = .data := by
+  have h1 : out ++ le ≠ [70] := by
+    intro h
+    have := congrArg List.getLast? h
+    rcases hle with rfl | rfl <;> simp at this
+  have h2 : out ++ le ≠ [83] := by
+    intro h
+    have := congrArg List.getLast? h
+    rcases hle with rfl | rfl <;> simp at this
+  simp [asyncDispatch, h1, h2]
+
+/-- full statement for raw chunks written through `io::Write`: every chunk is data -/
+def raw_chunks_are_data_full_statement : Prop := ∀ chunk : List Nat, asyncDispatch chunk = .data
+
+/-- FALSE for the code as it is (known finding `C15-async-control-chunks`) -/
+theorem raw_chunk_violation_witness : ¬ raw_chunks_are_data_full_statement := by
+  intro h; have := h [70]; revert this; decide
+
+/-- every other chunk is data (proved part) -/
+theorem raw_chunks_are_data_partial (chunk : List Nat) (h1 : chunk ≠ [70]) (h2 : chunk ≠ [83]) :
+    asyncDispatch chunk = .data := by
+  simp [asyncDispatch, h1, h2]
+
 end FV.C15
